@@ -89,6 +89,8 @@ def instrs(stmts, what):
             out.append('CRaise')
         elif src == 'self._release_child()':
             out.append('CRelease')
+        elif src == 'self.close()':
+            out.append('CClose')
         elif isinstance(s, ast.Expr) and isinstance(s.value, ast.Call) and ast.unparse(s.value.func) == 'self._child.join':
             out.append(f'CJoin {join_bound(s.value, what)}')
         elif src == 'self._child.terminate()':
@@ -117,6 +119,28 @@ def generate(repo):
                 dflt = {a.arg: ast.unparse(d) for a, d in zip(fn.args.args[-len(fn.args.defaults):], fn.args.defaults)}
                 out.append(f'(* {what}: defaults {dflt} *)')
             out.append(f'Definition gen_{cname[:-6].lower()}_{meth} : list cinstr := [' + '; '.join(instrs(frame(fn, what), what)) + '].')
+        out.append('')
+    # the persistent kinds override wait() and add close()
+    for fname, cname, short in (('persistent_thread.py', 'PersistentThreadWorker', 'pthread'), ('persistent_process.py', 'PersistentProcessWorker', 'pprocess')):
+        tree = ast.parse(open(f'{repo}/pyworkers/{fname}', newline=None).read())
+        cls = find_class(tree, cname)
+        fn = find_method(cls, 'wait')
+        out.append(f'Definition gen_{short}_wait : list cinstr := [' + '; '.join(instrs(frame(fn, cname + '.wait'), cname + '.wait')) + '].')
+        # close(): child side sets _stop; parent side releases the child, possibly only if it is still alive
+        fn = find_method(cls, 'close')
+        body = strip(fn.body)
+        ok = (len(body) == 1 and isinstance(body[0], ast.If) and ast.unparse(body[0].test) == 'self.is_child'
+              and [ast.unparse(x) for x in strip(body[0].body)] == ['self._stop = True', 'return'])
+        if not ok:
+            raise Unsupported(f'{cname}.close: expected `if self.is_child: self._stop = True; return  else: ...`')
+        rest = strip(body[0].orelse)
+        guarded = False
+        if rest and isinstance(rest[0], ast.If) and ast.unparse(rest[0].test) == 'not self.is_alive()' and [ast.unparse(x) for x in strip(rest[0].body)] == ['return'] and not rest[0].orelse:
+            guarded = True
+            rest = rest[1:]
+        if [ast.unparse(x) for x in rest] != ['self._release_child()']:
+            raise Unsupported(f'{cname}.close: parent side must release the child')
+        out.append(f'Definition gen_{short}_close_guarded : bool := {"true" if guarded else "false"}.')
         out.append('')
     return '\n'.join(out)
 
